@@ -488,8 +488,11 @@ def gfortran_outputs(case):
 def make_cases(chk, n):
     rng = chk.rng
     cases = []
+    def opt(kind):
+        return {"chunk": {"chunksize": rng.choice([2, 2, 3, 4])}, "tile2d": {"tilesize": rng.choice([2, 2, 3, 4])}}.get(kind)
     systematic = [(p, [("swap", None), ("tile2d", {"tilesize": rng.choice([2, 2, 3, 4])})])
-                  for p in G.gen_swap_systematic(rng)] + [(p, [("fuse", None)]) for p in G.gen_fuse_systematic(rng)]
+                  for p in G.gen_swap_systematic(rng)] + [(p, [("fuse", None)]) for p in G.gen_fuse_systematic(rng)] \
+        + [(p, [(kd, opt(kd)) for kd in kinds]) for p, kinds in G.gen_header_written_systematic(rng)]
     for k in range(n + len(systematic)):
         x = rng.random()
         if k < len(systematic):
